@@ -352,6 +352,10 @@ class SimNet:
 
         async def getaddrinfo(loop, log, host, port):
             v = net.names.get(host, host)
+            if getattr(net, "resolve_delay", 0) and host in net.names:
+                # looking a name up takes a while (literal addresses are answered at once)
+                import asyncio
+                await asyncio.sleep(net.resolve_delay)
             if isinstance(v, Exception):
                 raise v
             if v is None:
